@@ -15,7 +15,10 @@ import (
 )
 
 var c14Tokens = []string{"\n", "\r", "a", ":", " ", "\x00", "data: x"}
-var c14Wire = []string{"\n", "\r", "id:", "event:", "a", " ", "data:x"}
+var c14Wire = []string{"\n", "\r", "id:", "event:", "a", " ", "data:x", "\xEF\xBB\xBF"}
+
+// texts decoded immediately before the text under test (on the same goroutine): the result must not depend on them
+var c14Before = []string{"data:x\n\n", "id:a\rdata:x\r\r", "\xEF\xBB\xBFdata:x\n\n", "\xEF\xBB\xBFid:a\r\n\r\n", "data:x"}
 
 type fieldVal interface {
 	IsSet() bool
@@ -199,11 +202,15 @@ var C14 = &sqrun.Check{ID: "C14", QuickBudget: 60, ThoroughBudget: 600,
 		}
 		// Message.UnmarshalText on wire texts
 		wires := Strings(c14Wire, WL)
+		decode := func(w string) (string, *sse.Message, error) {
+			var m sse.Message
+			err := m.UnmarshalText([]byte(w))
+			return fmt.Sprintf("err=%v id=%v/%q type=%v/%q retry=%v wire=%q", err != nil, m.ID.IsSet(), m.ID.String(), m.Type.IsSet(), m.Type.String(), m.Retry, m.String()), &m, err
+		}
 		k.parallel(len(wires), func(i int) {
 			w := wires[i]
 			k.cases.Add(1)
-			var m sse.Message
-			err := m.UnmarshalText([]byte(w))
+			base, m, err := decode(w)
 			if (m.ID.IsSet() && multiline(m.ID.String())) || (m.Type.IsSet() && multiline(m.Type.String())) {
 				k.fail("C14: Message.UnmarshalText produced a multi-line ID or type", fmt.Sprintf("wire %q -> ID %q type %q (err %v)", w, m.ID.String(), m.Type.String(), err), w)
 				return
@@ -212,13 +219,28 @@ var C14 = &sqrun.Check{ID: "C14", QuickBudget: 60, ThoroughBudget: 600,
 				k.nontriv.Add(1)
 				if msg := wireSafe(m.ID, m.Type); msg != "" {
 					k.fail("C14: Message.UnmarshalText: "+msg, fmt.Sprintf("wire %q", w), w)
+					return
+				}
+			}
+			// the same text decoded right after another one: nothing may carry over from call to call
+			for _, b := range c14Before {
+				k.cases.Add(1)
+				_, _, _ = decode(b)
+				again, m2, _ := decode(w)
+				if (m2.ID.IsSet() && multiline(m2.ID.String())) || (m2.Type.IsSet() && multiline(m2.Type.String())) {
+					k.fail("C14: Message.UnmarshalText produced a multi-line ID or type", fmt.Sprintf("wire %q decoded right after %q -> ID %q type %q", w, b, m2.ID.String(), m2.Type.String()), []string{b, w})
+					return
+				}
+				if again != base {
+					k.fail("C14: Message.UnmarshalText depends on what was decoded before", fmt.Sprintf("wire %q decodes to {%s} on its own but to {%s} right after decoding %q", w, base, again, b), []string{b, w})
+					return
 				}
 			}
 		})
 		cov := ev.Coverage{"evaluations": k.cases.Load(), "distinct_nontrivial": k.nontriv.Load(), "exhaustive": k.exhaustive(),
 			"input_strings": len(inputs), "wire_texts": len(wires),
 			"samples": []any{map[string]string{"route": "EventID.Scan(string)", "input": "a\ndata: x"}, map[string]string{"route": "Upgrade", "header": "a\r"}},
-			"rule":    fmt.Sprintf("every string of <= %d tokens over %q through every route (NewID, NewType, ID, Type, UnmarshalText incl. later buffer reuse, UnmarshalJSON with raw and \\u escapes, Scan as string and []byte, the Last-Event-Id header given to Upgrade) plus non-string JSON documents and driver values; every wire text of <= %d tokens over %q through Message.UnmarshalText. Non-trivial = the input contains CR or LF (resp. the wire text yields a set ID or type).", L, c14Tokens, WL, c14Wire)}
+			"rule":    fmt.Sprintf("every string of <= %d tokens over %q through every route (NewID, NewType, ID, Type, UnmarshalText incl. later buffer reuse, UnmarshalJSON with raw and \\u escapes, Scan as string and []byte, the Last-Event-Id header given to Upgrade) plus non-string JSON documents and driver values; every wire text of <= %d tokens over %q through Message.UnmarshalText, on its own and right after each of %d other texts (LF-only, CR-only, with BOM, truncated) with the results compared. Non-trivial = the input contains CR or LF (resp. the wire text yields a set ID or type).", L, c14Tokens, WL, c14Wire, len(c14Before))}
 		return &sqrun.Outcome{Level: "exploration", Coverage: cov}
 	},
 }
